@@ -84,9 +84,11 @@ CLAIMED = {
              "C09_cancellation_only_by_caller (such a cancellation only when the caller had cancelled that very operation: ghost flag set by the LCancel label alone; invariant C09_awaited_call_owned tying every awaited call to the one task that awaits it), "
              "C09_wrapper_always_library, C09_start_classified, C09_finish_failure_classified, C09_call_outcome, "
              "C09_first_cause_kept, C09_waiters_get_first_cause (all pending waiters receive the error derived from the first fatal cause), C09_start_arms_timer, C09_time_respects_deadlines, C09_documented_bounds (30/60/30/30/5/10 s read from the source). "
-             "PARTIAL: the composition 'every awaited operation is complete by start + bound' is not proved as one theorem about runs; it is checked on the implementation at every quiescent point under the virtual clock together with a never-hangs audit.",
+             "No await is unguarded, over all runs (invariant GA, Proofs/ConnGuard.v): C09_every_await_guarded, C09_no_unguarded_await (every suspended coroutine is resumable now, or an armed deadline stands behind what it awaits, or it waits for connection_made), "
+             "C09_ready_task_resumes, C09_reached_deadline_fires, C09_connection_made_arrives; bounds over all runs (Proofs/ConnBound.v): C09_phase_deadlines_bounded, C09_call_timers_exact. "
+             "PARTIAL: that a resumable task IS resumed and a due timer IS fired promptly is asyncio's scheduling (no fairness in the model), so the closed-form bound of a whole operation is not one theorem about runs; it is checked on the implementation at every quiescent point under the virtual clock together with a never-hangs audit.",
         note=CONN_NOTE + "Awaits inside third-party libraries (aiohappyeyeballs, zeroconf, getaddrinfo) are inputs that may complete with any outcome or never.",
-        tech="machine-checked proof in Coq (invariants on the call table and on the call/task ownership over all 35 labels, Proofs/ConnOutcome.v and Proofs/ConnCancel.v; case analysis of every task exit; first-cause lemmas) + trace validation, completion-time and hang audit on the real APIConnection; partial (bounded-time composition is tested, not proved)",
+        tech="machine-checked proof in Coq (invariants over all 35 labels: call table, call/task ownership, guarded awaits, deadline bounds - Proofs/ConnOutcome.v, ConnCancel.v, ConnGuard.v, ConnBound.v; case analysis of every task exit; first-cause lemmas) + trace validation, completion-time and hang audit on the real APIConnection; partial (the scheduler's promptness, hence the closed-form bound of a whole operation, is tested, not proved)",
         ref="DESIGN.md §5 C09, §9.1"),
     "C10": dict(
         text="Coq theorems C10_ping_iff_idle, C10_dead_exactly (death exactly 4.5K after the first ping since the last message, hence between 5.5K and 6.5K after the last message), C10_obs_sources, C10_arrival_disarms, C10_all_runs about Model/Keepalive.v: "
@@ -97,9 +99,11 @@ CLAIMED = {
         ref="DESIGN.md §5 C10"),
     "C11": dict(
         text="Coq theorems C11_collects (for ANY message stream the call holds the accepted messages in arrival order up to and including the first stop message, done iff a stop message arrived), C11_done_ignores_later, "
-             "C11_handler_is_call_step, C11_no_interference, C11_finally_always_runs, C11_finally_leaves_nothing (no handler, waiter or timer), C11_outcome, C11_time_respects_deadlines, C11_timeout_due_iff about Model/Conn.v. "
+             "C11_handler_is_call_step, C11_no_interference, C11_finally_always_runs, C11_finally_leaves_nothing (no handler, waiter or timer), C11_outcome, C11_time_respects_deadlines, C11_timeout_due_iff about Model/Conn.v; "
+             "over ALL runs (Proofs/ConnLeak.v, relation R preserved by all 35 labels): C11_call_leaves_nothing (the wake-up that ends a call - result, time-out, cancellation, connection error - leaves no handler, waiter or timer of it, and none ever returns), "
+             "C11_unsent_call_registers_nothing, C11_hello_call_leaves_nothing, C11_disconnect_call_leaves_nothing, C11_resources_only_shrink, C11_call_handlers_typed, C11_timeout_exactly_at_its_timeout (an armed call timer is exactly sent + time-out). "
              "Tied by trace validation; per call the result list / error class / timeout instant are judged on the implementation by an oracle from the labels, with a handler/timer/waiter leftover audit at every quiescent point.",
-        note=CONN_NOTE, tech="machine-checked proof in Coq (induction over the message stream; finally-block lemmas) + trace validation and leftover audit on the real APIConnection",
+        note=CONN_NOTE, tech="machine-checked proof in Coq (induction over the message stream; finally-block lemmas; leak-freedom and timer exactness as invariants over all runs) + trace validation and leftover audit on the real APIConnection",
         ref="DESIGN.md §5 C11"),
     "C12": dict(
         text="Coq theorems C12_known_type_dispatched (deliveries of one packet = the subscribers in the snapshot of the handler table at dispatch start, each once, whatever re-entrant scripts do), "
